@@ -1258,3 +1258,79 @@ Proof.
   - split; reflexivity.
   - exists (st_of v FirstChild [] 0), h'. split; [now apply print_parse_roundtrip|exact Hh].
 Qed.
+
+Theorem hydrate_parsed_total v :
+  wf false v = true -> exists root st h, hydrate_parsed v = Some (root, st, h).
+Proof.
+  intro Hwf. destruct (hydrate_total v Hwf) as (st & h & Hp & Hh).
+  exists (root_of (fst (dom_of v FirstChild))), st, h. unfold hydrate_parsed. now rewrite Hp, Hh.
+Qed.
+
+(** the result of [hydrate_parsed] spelled out *)
+Lemma hydrate_parsed_spec v root st h :
+  wf false v = true -> hydrate_parsed v = Some (root, st, h) ->
+  root = root_of (fst (dom_of v FirstChild)) /\ st = st_of v FirstChild [] 0 /\
+  h_ops h = rev (resets st) /\ h_pos h = snd (dom_of v FirstChild).
+Proof.
+  intros Hwf H. unfold hydrate_parsed in H. rewrite (print_parse_roundtrip v Hwf) in H.
+  set (f := fst (dom_of v FirstChild)) in *.
+  destruct (hyd_all (root_of f) v [] s_div [] [] [] false FirstChild
+              {| h_cur := []; h_pos := FirstChild; h_ops := [] |} Hwf) as (h' & Hh & Hp & _ & Ho).
+  - unfold node_at, root_of. cbn. now rewrite app_nil_r.
+  - reflexivity.
+  - split; reflexivity.
+  - unfold hydrate_from in H. cbn [length] in Hh, Ho. rewrite Hh in H. injection H as <- <- <-.
+    cbn [h_ops] in Ho. rewrite app_nil_r in Ho. auto.
+Qed.
+
+(** ** hydrate_creates_nothing *)
+(** the tree with every text emptied: node set, kinds, names, attributes, order *)
+Fixpoint skeleton (d : dom) : dom :=
+  match d with
+  | DText _ => DText []
+  | DComment s => DComment s
+  | DElem n a ks => DElem n a (map skeleton ks)
+  end.
+
+Lemma skeleton_set_text p : forall d s, skeleton (set_text_at d p s) = skeleton d.
+Proof.
+  induction p as [|i p IH]; intros d s.
+  - destruct d; reflexivity.
+  - destruct d as [t|t|n a ks]; try reflexivity.
+    cbn [set_text_at skeleton]. f_equal.
+    revert i. induction ks as [|k ks IHks]; intro i; [reflexivity|].
+    destruct i as [|i]; cbn [map].
+    + now rewrite IH.
+    + now rewrite IHks.
+Qed.
+
+Lemma skeleton_apply_ops ops d : skeleton (apply_ops d ops) = skeleton d.
+Proof.
+  unfold apply_ops. generalize (rev ops) as l. intro l. revert d.
+  induction l as [|o l IH]; intro d; [reflexivity|].
+  cbn [fold_left]. rewrite IH. destruct o as [n s]. apply skeleton_set_text.
+Qed.
+
+Theorem hydrate_creates_nothing v root st h :
+  wf false v = true -> hydrate_parsed v = Some (root, st, h) ->
+  h_ops h = rev (resets st) /\ skeleton (apply_ops root (h_ops h)) = skeleton root.
+Proof.
+  intros Hwf H. destruct (hydrate_parsed_spec v root st h Hwf H) as (_ & _ & Ho & _).
+  split; [exact Ho|apply skeleton_apply_ops].
+Qed.
+
+(** hypotheses are satisfiable by a non-trivial view:
+    <p id="x&quot;"> "a" "" () <span></span> <br> vec!["q","r"] Some("") </p> "tail" *)
+Definition ex_view : view :=
+  VTuple [VElem s_p [([105; 100], [120; 34])]
+            [VText [97]; VText []; VUnit; VElem s_span [] []; VVoid s_br []; VVec [VText [113]; VText [114]];
+             VSome (VText [])];
+          VText [116; 97; 105; 108]].
+Example ex_view_wf : wf false ex_view = true.
+Proof. reflexivity. Qed.
+Example ex_view_hydrates :
+  match hydrate_parsed ex_view with
+  | Some (_, st, h) => (length (bound st), length (h_ops h)) = (11%nat, 2%nat)
+  | None => False
+  end.
+Proof. vm_compute. reflexivity. Qed.
